@@ -25,7 +25,7 @@ func init() {
 				"information keeps an ECS record exactly when the decoded option's subnet is not the zero value (so a /0 opt-out is " +
 				"kept), and a malformed option is answered with FORMERR without calling the next stage.",
 			NotCovered: "the GeoIP data itself and the scope arithmetic of upstream answers; that the upstream honours the option.",
-			Rules: map[string]string{"C05-R1": "handler decision tree and upstream-subnet provenance", "C05-R2": "who writes cacheRequest.subnet",
+			Rules: map[string]string{"C05-R10": "geoip.File.Refresh: no path from installing new databases to the return skips clearing either lookup cache", "C05-R1": "handler decision tree and upstream-subnet provenance", "C05-R2": "who writes cacheRequest.subnet",
 				"C05-R3": "lookup order and opt-out gate", "C05-R4": "echo gates and setECS table", "C05-R5": "ECS record / FORMERR tables"},
 		}})
 }
@@ -50,6 +50,8 @@ func runC05(c *an.Ctx) {
 		return strings.HasPrefix(an.FnKey(fn), "dnssvc")
 	}, map[string]string{}))
 	c05GeoData(c)
+	c.Floor("C05-R10", 2)
+	c05RefreshClears(c)
 	sharedErrorsAs(c, "C05-R5", 1, "dnssvc/internal/ratelimitmw.", "ecscache.", "dnsmsg.")
 	if n := sharedLoopCompleteness(c, "C05-R6", "dnsmsg.", "ecscache.", "geoip."); n > 0 {
 		c.Ok("C05-R6", "element-wise loops", token.NoPos, "%d range loops of the ECS helpers examined: no element ends a scan early", n)
@@ -610,4 +612,52 @@ func c05GeoData(c *an.Ctx) {
 			return ""
 		},
 	})
+}
+
+// c05RefreshClears: once Refresh has installed the new databases, no path
+// returns without clearing both lookup caches (an entry computed from the old
+// database would otherwise keep answering for the address).
+func c05RefreshClears(c *an.Ctx) {
+	const name = "geoip.(*File).Refresh"
+	fn := c.Fn(name)
+	if fn == nil {
+		c.Und("C05-R10", name+" clears the lookup caches", token.NoPos, "anchor not found")
+		return
+	}
+	c.Analysed(name)
+	var installs []*ssa.Store
+	an.Instrs(fn, func(in ssa.Instruction) {
+		if st, ok := in.(*ssa.Store); ok {
+			if typ, field, _, ok := an.FieldOf(st.Addr); ok && typ == "geoip.File" && (field == "asn" || field == "country") {
+				installs = append(installs, st)
+			}
+		}
+	})
+	if len(installs) == 0 {
+		c.Und("C05-R10", name+" clears the lookup caches", fn.Pos(), "no store of the new databases found")
+		return
+	}
+	for _, cache := range []string{"hostCache", "ipCache"} {
+		isClear := func(in ssa.Instruction) bool {
+			call, ok := in.(ssa.CallInstruction)
+			if !ok || !strings.HasSuffix(an.CalleeName(call), ".Clear") {
+				return false
+			}
+			recv := call.Common().Value
+			if !call.Common().IsInvoke() && len(call.Common().Args) > 0 {
+				recv = call.Common().Args[0]
+			}
+			ap, _ := an.AccessPath(recv)
+			return strings.HasSuffix(ap, "."+cache)
+		}
+		bad := false
+		for _, st := range installs {
+			if exitAvoiding(st, nil, isClear) {
+				bad = true
+			}
+		}
+		c.Check(!bad, "C05-R10", name+" clears "+cache+" after installing new databases", fn.Pos(),
+			"every path from the installation of the new databases to the return clears the cache",
+			"a path from the installation of the new databases reaches the return without clearing "+cache+": locations computed from the previous database keep being served")
+	}
 }
